@@ -221,7 +221,8 @@ BIT_STRING__compactify(const BIT_STRING_t *st, BIT_STRING_t *tmp) {
     } unconst;
 
     if(st->size == 0) {
-        assert(st->bits_unused == 0);
+        /* An empty string has no bits, whatever bits_unused says
+         * (a failed or starved decode may leave it non-zero). */
         return st;
     } else {
         for(b = &st->buf[st->size - 1]; b > st->buf && *b == 0; b--) {
